@@ -206,6 +206,7 @@ func propC01(t *rapid.T) {
 	w := newWorld(t, nW, 20, nil)
 	worldInternalHint = 0
 	defer w.close()
+	w.allowZeroValue = rapid.IntRange(0, 2).Draw(t, "zeroValueOutputs") == 0
 	audits := 0
 	t.Repeat(map[string]func(*rapid.T){
 		"newAddress": func(t *rapid.T) {
